@@ -1,81 +1,1518 @@
+// C09: serialised models round-trip; importing a compiled model reproduces it.
+//
+// Oracle (model-independent, judges the property itself on the real code):
+//   - every module (repository corpus, generated Sysl text compiled by the real parser, modules built directly)
+//     x {pb, json, textpb} x {indented, compact}: bytes written by the real pbutil writers, read back through
+//     pbutil.FromPB under the mode's conventional suffix, must be proto.Equal to what was encoded; JSON must be
+//     well-formed (encoding/json.Valid);
+//   - a specification that only imports such a file (import x.pb / x.pb.json / x.textpb) must compile to the same
+//     applications;
+//   - a .json file that is not a compiled model (an OpenAPI document) must still be imported as OpenAPI.
+//
+// Correspondence (Gallina cases, evaluated against the Coq model):
+//   - CClean: arbitrary byte documents through the expression literal of pkg/pbutil/output.go (read from the source
+//     tree under test) with Go's regexp engine and the template of the source;
+//   - CJson / CCompact: protojson output of real messages with hostile keys and strings: the harness reads the lines,
+//     Coq re-prints them (model of the writer incl. escaping) and runs the clean-up model on the raw bytes;
+//   - CDispatch: decoder chosen by FromPBStringContents / FromPB per file name;
+//   - CPost: applications after compiling `import x.pb`, against the post-processing model.
 package main
 
 import (
 	"bytes"
+	"encoding/json"
+	"errors"
 	"fmt"
+	"go/ast"
+	"go/parser"
+	"go/token"
+	"net/url"
+	"os"
+	"path/filepath"
+	"regexp"
+	"runtime/debug"
+	"runtime/pprof"
+	"sort"
+	"strconv"
+	"strings"
+	"time"
 
 	"github.com/anz-bank/sysl/pkg/parse"
 	"github.com/anz-bank/sysl/pkg/pbutil"
 	"github.com/anz-bank/sysl/pkg/sysl"
+	"github.com/anz-bank/sysl/pkg/syslutil"
+	"github.com/sirupsen/logrus"
 	"github.com/spf13/afero"
+	"google.golang.org/protobuf/encoding/protojson"
 	"google.golang.org/protobuf/proto"
+	"google.golang.org/protobuf/reflect/protoreflect"
+
+	"verifharness/common"
 )
 
-func compile(files map[string]string, root string) (*sysl.Module, error) {
+// ------------------------------------------------------------------ replay descriptor
+type replay struct {
+	Kind   string            `json:"kind"` // sysl | corpus | abstract | msg | regex | dispatch | foreign-json
+	Files  map[string]string `json:"files,omitempty"`
+	Root   string            `json:"root,omitempty"`
+	Path   string            `json:"path,omitempty"`
+	Doc    string            `json:"doc,omitempty"`    // regex: the document (Go-quoted in What); msg/abstract: base64-free JSON of the message
+	Enc    string            `json:"enc,omitempty"`    // pb | json | textpb
+	Compact bool             `json:"compact,omitempty"`
+	Via    string            `json:"via,omitempty"`    // decode | import
+	Note   string            `json:"note,omitempty"`
+}
+
+// ------------------------------------------------------------------ hostile strings
+var pieces = []string{
+	`"`, `\`, `:`, ` `, `  `, `": `, `":  `, `\":  x`, "\n", "\t", "\r", "é", "日本", "\x01", "\x1f", "a", "b", "k", "{", "}", "[", "]", ",",
+	`"a":  b`, `\\"`, `\"`, "\n \"k\":  v", `:  `, `'`, "\u2028", "/", "\x7f", "<", "&",
+}
+
+func hostile(r *common.Rng, max int) string {
+	n := r.Intn(max + 1)
+	var b strings.Builder
+	for i := 0; i < n; i++ {
+		b.WriteString(pieces[r.Intn(len(pieces))])
+	}
+	return b.String()
+}
+
+var plainNames = []string{"A", "B", "C", "Dd", "E1", "Srv", "My", "Z9"}
+
+// a Sysl Name token for an arbitrary string: letters stay, everything else is %HH (must start with a letter or an escape)
+func syslName(s string) string {
+	var b strings.Builder
+	for i := 0; i < len(s); i++ {
+		c := s[i]
+		if (c >= 'a' && c <= 'z') || (c >= 'A' && c <= 'Z') || c == '_' || (i > 0 && c >= '0' && c <= '9') {
+			b.WriteByte(c)
+		} else {
+			fmt.Fprintf(&b, "%%%02X", c)
+		}
+	}
+	return b.String()
+}
+
+// what the parser will make of it (MustUnescape: PathUnescape + TrimSpace)
+func syslNameMeaning(tok string) string {
+	s, err := url.PathUnescape(tok)
+	if err != nil {
+		return tok
+	}
+	return strings.TrimSpace(s)
+}
+
+func qstr(s string) string {
+	var b bytes.Buffer
+	e := json.NewEncoder(&b)
+	e.SetEscapeHTML(false)
+	e.Encode(s)
+	return strings.TrimSuffix(b.String(), "\n")
+}
+
+// ------------------------------------------------------------------ Sysl text generator
+type genOpts struct{ hostileNames bool }
+
+func genAttrs(r *common.Rng) string {
+	if r.Chance(1, 2) {
+		return ""
+	}
+	var it []string
+	n := 1 + r.Intn(3)
+	for i := 0; i < n; i++ {
+		switch r.Intn(4) {
+		case 0:
+			it = append(it, "~"+[]string{"p", "q", "rest2", "abstract2", "t"}[r.Intn(5)])
+		case 1:
+			it = append(it, fmt.Sprintf("k%d=%s", r.Intn(3), qstr(hostile(r, 4))))
+		case 2:
+			it = append(it, fmt.Sprintf("arr%d=[%s, %s]", r.Intn(2), qstr(hostile(r, 3)), qstr(hostile(r, 2))))
+		default:
+			it = append(it, fmt.Sprintf("k%d=%s", r.Intn(3), qstr("v"+fmt.Sprint(r.Intn(3)))))
+		}
+	}
+	// keys must be unique within one list
+	seen := map[string]bool{}
+	var out []string
+	for _, a := range it {
+		k := a
+		if i := strings.Index(a, "="); i > 0 {
+			k = a[:i]
+		} else {
+			k = "~"
+		}
+		if k != "~" && seen[k] {
+			continue
+		}
+		seen[k] = true
+		out = append(out, a)
+	}
+	return " [" + strings.Join(out, ", ") + "]"
+}
+
+type gApp struct {
+	tok      string // name as written
+	abstract bool
+	eps      []string
+}
+
+func genStmts(r *common.Rng, apps []gApp, ind string, depth int, b *strings.Builder) {
+	n := 1 + r.Intn(3)
+	for i := 0; i < n; i++ {
+		switch k := r.Intn(10); {
+		case k < 4 && len(apps) > 0:
+			a := apps[r.Intn(len(apps))]
+			if len(a.eps) == 0 {
+				fmt.Fprintf(b, "%sdo something\n", ind)
+				continue
+			}
+			fmt.Fprintf(b, "%s%s <- %s%s\n", ind, a.tok, a.eps[r.Intn(len(a.eps))], genAttrs(r))
+		case k < 6:
+			fmt.Fprintf(b, "%sstep %d%s\n", ind, r.Intn(5), "")
+		case k < 7:
+			fmt.Fprintf(b, "%sreturn ok <: string\n", ind)
+		case k < 8 && depth > 0:
+			fmt.Fprintf(b, "%sif cond%d:\n", ind, r.Intn(3))
+			genStmts(r, apps, ind+"    ", depth-1, b)
+			if r.Bool() {
+				fmt.Fprintf(b, "%selse:\n", ind)
+				genStmts(r, apps, ind+"    ", depth-1, b)
+			}
+		case k < 9 && depth > 0:
+			if r.Bool() {
+				fmt.Fprintf(b, "%sloop:\n", ind)
+			} else {
+				fmt.Fprintf(b, "%sfor each x in xs:\n", ind)
+			}
+			genStmts(r, apps, ind+"    ", depth-1, b)
+		case depth > 0:
+			fmt.Fprintf(b, "%sone of:\n", ind)
+			for j := 0; j < 2; j++ {
+				fmt.Fprintf(b, "%s    case %d:\n", ind, j)
+				genStmts(r, apps, ind+"        ", depth-1, b)
+			}
+		default:
+			fmt.Fprintf(b, "%s...\n", ind)
+		}
+	}
+}
+
+func genSysl(r *common.Rng, o genOpts) string {
+	na := 1 + r.Intn(4)
+	var apps []gApp
+	used := map[string]bool{}
+	for i := 0; i < na; i++ {
+		var tok string
+		if o.hostileNames && r.Chance(1, 2) {
+			tok = "N" + syslName(hostile(r, 3)) + fmt.Sprint(i)
+		} else {
+			tok = plainNames[r.Intn(len(plainNames))]
+			if r.Chance(1, 5) {
+				tok += " :: " + plainNames[r.Intn(len(plainNames))]
+			}
+		}
+		if used[tok] {
+			tok += fmt.Sprint(i)
+		}
+		used[tok] = true
+		a := gApp{tok: tok, abstract: r.Chance(1, 3)}
+		ne := r.Intn(4)
+		for j := 0; j < ne; j++ {
+			a.eps = append(a.eps, fmt.Sprintf("Ep%d", j))
+		}
+		apps = append(apps, a)
+	}
+	var b strings.Builder
+	for ai, a := range apps {
+		at := genAttrs(r)
+		if a.abstract {
+			at = " [~abstract]"
+		}
+		fmt.Fprintf(&b, "%s%s:\n", a.tok, at)
+		empty := true
+		if r.Chance(1, 3) {
+			fmt.Fprintf(&b, "    @note = %s\n", qstr(hostile(r, 5)))
+			empty = false
+		}
+		// mixins: chains are wanted (A -|> B -|> C)
+		for bi, bapp := range apps {
+			if bi != ai && bapp.abstract && r.Chance(1, 2) {
+				fmt.Fprintf(&b, "    -|> %s\n", bapp.tok)
+				empty = false
+			}
+		}
+		nt := r.Intn(3)
+		for j := 0; j < nt; j++ {
+			fmt.Fprintf(&b, "    !type T%d%s:\n", r.Intn(4)*10+j, genAttrs(r))
+			nf := 1 + r.Intn(3)
+			for f := 0; f < nf; f++ {
+				ty := []string{"int", "string", "string(5)", "decimal(5.2)", "sequence of string", "T1", "date", "bool?"}[r.Intn(8)]
+				fmt.Fprintf(&b, "        f%d <: %s%s\n", f, ty, genAttrs(r))
+			}
+			empty = false
+		}
+		for _, ep := range a.eps {
+			fmt.Fprintf(&b, "    %s%s:\n", ep, genAttrs(r))
+			genStmts(r, apps, "        ", 2, &b)
+			empty = false
+		}
+		if r.Chance(1, 4) {
+			fmt.Fprintf(&b, "    /p%d/{id <: int}:\n        GET ?q=string%s:\n            return ok <: string\n", r.Intn(3), genAttrs(r))
+			empty = false
+		}
+		if len(a.eps) > 0 && r.Chance(2, 3) {
+			fmt.Fprintf(&b, "    .. * <- *:\n")
+			n := 1 + r.Intn(3)
+			for j := 0; j < n; j++ {
+				at := genAttrs(r)
+				if at == "" {
+					at = " [~c]"
+				}
+				if r.Bool() {
+					fmt.Fprintf(&b, "        %s%s\n", a.eps[r.Intn(len(a.eps))], at)
+				} else {
+					t := apps[r.Intn(len(apps))]
+					if len(t.eps) == 0 {
+						fmt.Fprintf(&b, "        %s%s\n", a.eps[0], at)
+					} else {
+						fmt.Fprintf(&b, "        %s <- %s%s\n", t.tok, t.eps[r.Intn(len(t.eps))], at)
+					}
+				}
+			}
+			empty = false
+		}
+		if empty {
+			fmt.Fprintf(&b, "    ...\n")
+		}
+	}
+	return b.String()
+}
+
+// ------------------------------------------------------------------ compile
+func compile(files map[string]string, root string) (m *sysl.Module, err error, panicked bool) {
+	defer func() {
+		if x := recover(); x != nil {
+			m, err, panicked = nil, fmt.Errorf("panic: %v", x), true
+		}
+	}()
 	fs := afero.NewMemMapFs()
 	for n, c := range files {
 		afero.WriteFile(fs, n, []byte(c), 0o644)
 	}
-	return parse.NewParser().ParseFromFs(root, fs)
+	m, err = parse.NewParser().ParseFromFs(root, fs)
+	return m, err, false
+}
+
+func corpusFiles(repo string) []string {
+	var files []string
+	filepath.Walk(repo, func(p string, info os.FileInfo, err error) error {
+		if err == nil && !info.IsDir() && strings.HasSuffix(p, ".sysl") && info.Size() < 20000 && !strings.Contains(p, "/node_modules/") {
+			files = append(files, strings.TrimPrefix(p, repo+"/"))
+		}
+		return nil
+	})
+	sort.Strings(files)
+	return files
+}
+
+func compileCorpus(repo, rel string) (m *sysl.Module, err error) {
+	defer func() {
+		if x := recover(); x != nil {
+			m, err = nil, fmt.Errorf("panic: %v", x)
+		}
+	}()
+	fs := syslutil.NewChrootFs(afero.NewOsFs(), repo)
+	return parse.NewParser().ParseFromFs(rel, fs)
+}
+
+// ------------------------------------------------------------------ encodings
+type encoding struct {
+	name    string // pb | json | textpb
+	compact bool
+	suffix  string
+}
+
+var encodings = []encoding{
+	{"pb", false, ".pb"}, {"json", false, ".pb.json"}, {"json", true, ".pb.json"}, {"textpb", false, ".textpb"}, {"textpb", true, ".textpb"},
+	{"pb", true, ".pb"},
+}
+
+func (e encoding) String() string {
+	if e.compact {
+		return e.name + "-compact"
+	}
+	return e.name + "-indented"
+}
+
+// bytes as the real writers produce them (file variant and writer variant must agree)
+func encode(m proto.Message, e encoding) ([]byte, error) {
+	fs := afero.NewMemMapFs()
+	o := pbutil.OutputOptions{Compact: e.compact}
+	var err error
+	var w bytes.Buffer
+	switch e.name {
+	case "pb":
+		err = pbutil.GeneratePBBinaryMessageFile(m, "out", fs)
+		if err == nil {
+			err = pbutil.GeneratePBBinaryMessage(&w, m)
+		}
+	case "json":
+		err = pbutil.JSONPBWithOpt(m, "out", fs, o)
+		if err == nil {
+			err = pbutil.FJSONPBWithOpt(&w, m, o)
+		}
+	case "textpb":
+		err = pbutil.TextPBWithOpt(m, "out", fs, o)
+		if err == nil {
+			err = pbutil.FTextPBWithOpt(&w, m, o)
+		}
+	}
+	if err != nil {
+		return nil, err
+	}
+	b, err := afero.ReadFile(fs, "out")
+	if err != nil {
+		return nil, err
+	}
+	if e.name != "pb" && !bytes.Equal(b, w.Bytes()) { // binary map order is not deterministic between two Marshal calls
+		return nil, fmt.Errorf("file writer and stream writer disagree")
+	}
+	return b, nil
+}
+
+func decodeFile(name string, content []byte) (*sysl.Module, error) {
+	fs := afero.NewMemMapFs()
+	afero.WriteFile(fs, name, content, 0o644)
+	return pbutil.FromPB(name, fs)
+}
+
+// ------------------------------------------------------------------ proto diff (paths of differences)
+type diffItem struct {
+	path []string
+	kind string // "+" only in b, "-" only in a, "len" list length, "val" scalar
+	a, b protoreflect.Value
+}
+
+func diffMsg(path []string, a, b protoreflect.Message, out *[]diffItem) {
+	fds := a.Descriptor().Fields()
+	for i := 0; i < fds.Len(); i++ {
+		fd := fds.Get(i)
+		p := append(append([]string{}, path...), string(fd.Name()))
+		ha, hb := a.Has(fd), b.Has(fd)
+		if !ha && !hb {
+			continue
+		}
+		switch {
+		case fd.IsMap():
+			ma, mb := a.Get(fd).Map(), b.Get(fd).Map()
+			keys := map[string]protoreflect.MapKey{}
+			ma.Range(func(k protoreflect.MapKey, _ protoreflect.Value) bool { keys[k.String()] = k; return true })
+			mb.Range(func(k protoreflect.MapKey, _ protoreflect.Value) bool { keys[k.String()] = k; return true })
+			var ks []string
+			for k := range keys {
+				ks = append(ks, k)
+			}
+			sort.Strings(ks)
+			for _, ks1 := range ks {
+				k := keys[ks1]
+				pk := append(append([]string{}, p...), "["+ks1+"]")
+				switch {
+				case !ma.Has(k):
+					*out = append(*out, diffItem{path: pk, kind: "+"})
+				case !mb.Has(k):
+					*out = append(*out, diffItem{path: pk, kind: "-"})
+				case fd.MapValue().Message() != nil:
+					diffMsg(pk, ma.Get(k).Message(), mb.Get(k).Message(), out)
+				default:
+					if !ma.Get(k).Equal(mb.Get(k)) {
+						*out = append(*out, diffItem{path: pk, kind: "val"})
+					}
+				}
+			}
+		case fd.IsList():
+			la, lb := a.Get(fd).List(), b.Get(fd).List()
+			if la.Len() != lb.Len() {
+				*out = append(*out, diffItem{path: p, kind: "len", a: a.Get(fd), b: b.Get(fd)})
+			}
+			n := la.Len()
+			if lb.Len() < n {
+				n = lb.Len()
+			}
+			for j := 0; j < n; j++ {
+				pj := append(append([]string{}, p...), fmt.Sprintf("#%d", j))
+				if fd.Message() != nil {
+					diffMsg(pj, la.Get(j).Message(), lb.Get(j).Message(), out)
+				} else if !la.Get(j).Equal(lb.Get(j)) {
+					*out = append(*out, diffItem{path: pj, kind: "val"})
+				}
+			}
+		case fd.Message() != nil:
+			if ha != hb {
+				k := "+"
+				if ha {
+					k = "-"
+				}
+				*out = append(*out, diffItem{path: p, kind: k})
+				continue
+			}
+			diffMsg(p, a.Get(fd).Message(), b.Get(fd).Message(), out)
+		default:
+			if !a.Get(fd).Equal(b.Get(fd)) {
+				*out = append(*out, diffItem{path: p, kind: "val"})
+			}
+		}
+	}
+}
+
+// list b = list a followed by repeats of elements of a ?
+func onlyRepeats(a, b protoreflect.List) bool {
+	if b.Len() <= a.Len() {
+		return false
+	}
+	for i := 0; i < a.Len(); i++ {
+		if !proto.Equal(a.Get(i).Message().Interface(), b.Get(i).Message().Interface()) {
+			return false
+		}
+	}
+	for i := a.Len(); i < b.Len(); i++ {
+		found := false
+		for j := 0; j < a.Len(); j++ {
+			if proto.Equal(a.Get(j).Message().Interface(), b.Get(i).Message().Interface()) {
+				found = true
+			}
+		}
+		if !found {
+			return false
+		}
+	}
+	return true
+}
+
+func hasMixinChain(m *sysl.Module, appKey string) bool {
+	a := m.Apps[appKey]
+	if a == nil {
+		return false
+	}
+	for _, s := range a.Mixin2 {
+		src := syslutil.GetApp(s.Name, m)
+		if src != nil && len(src.Mixin2) > 0 {
+			return true
+		}
+	}
+	return false
+}
+
+const collectorName = `.. * <- *`
+
+// classify the differences between the applications of the original and of the re-imported module
+func classifyReimport(orig, re *sysl.Module) map[string]string {
+	keys := map[string]string{}
+	names := map[string]bool{}
+	for k := range orig.Apps {
+		names[k] = true
+	}
+	for k := range re.Apps {
+		names[k] = true
+	}
+	for k := range names {
+		a, b := orig.Apps[k], re.Apps[k]
+		if a == nil || b == nil {
+			keys["reimport:app-set-differs"] = fmt.Sprintf("application %q present on one side only", k)
+			continue
+		}
+		if proto.Equal(a, b) {
+			continue
+		}
+		var ds []diffItem
+		diffMsg([]string{"apps[" + k + "]"}, a.ProtoReflect(), b.ProtoReflect(), &ds)
+		for _, d := range ds {
+			p := strings.Join(d.path, ".")
+			n := len(d.path)
+			switch {
+			case d.kind == "len" && n >= 4 && d.path[n-1] == "elt" && d.path[n-2] == "a" && strings.HasPrefix(d.path[n-3], "[") && d.path[n-4] == "attrs" &&
+				len(d.path) > 2 && d.path[1] == "endpoints" && d.path[2] != "["+collectorName+"]" && a.Endpoints[collectorName] != nil && onlyRepeats(d.a.List(), d.b.List()):
+				keys["reimport:collector-array-attr"] = fmt.Sprintf("%s: %d elements became %d (collector attributes appended again)", p, d.a.List().Len(), d.b.List().Len())
+			case d.kind == "+" && n == 3 && (d.path[1] == "types" || d.path[1] == "views") && hasMixinChain(orig, k):
+				keys["reimport:mixin-chain"] = fmt.Sprintf("%s appears only after re-import (mixin of a mixin)", p)
+			default:
+				keys["reimport:differs"] = fmt.Sprintf("%s (%s)", p, d.kind)
+			}
+		}
+	}
+	return keys
+}
+
+// ------------------------------------------------------------------ source context stripping (own implementation)
+func stripCtx(m protoreflect.Message) {
+	m.Range(func(fd protoreflect.FieldDescriptor, v protoreflect.Value) bool {
+		if fd.Name() == "source_context" || fd.Name() == "source_contexts" {
+			m.Clear(fd)
+			return true
+		}
+		switch {
+		case fd.IsMap():
+			if fd.MapValue().Message() != nil {
+				v.Map().Range(func(_ protoreflect.MapKey, mv protoreflect.Value) bool { stripCtx(mv.Message()); return true })
+			}
+		case fd.IsList():
+			if fd.Message() != nil {
+				for i := 0; i < v.List().Len(); i++ {
+					stripCtx(v.List().Get(i).Message())
+				}
+			}
+		case fd.Message() != nil:
+			stripCtx(v.Message())
+		}
+		return true
+	})
+}
+
+// ------------------------------------------------------------------ the expression of the source tree under test
+type srcRegex struct {
+	lit, tmpl string
+	re        *regexp.Regexp
+}
+
+func readSourceRegex(repo string) (*srcRegex, error) {
+	fset := token.NewFileSet()
+	f, err := parser.ParseFile(fset, filepath.Join(repo, "pkg/pbutil/output.go"), nil, 0)
+	if err != nil {
+		return nil, err
+	}
+	vars := map[string]string{}
+	out := &srcRegex{}
+	ast.Inspect(f, func(n ast.Node) bool {
+		switch x := n.(type) {
+		case *ast.ValueSpec:
+			if len(x.Names) == 1 && len(x.Values) == 1 {
+				if c, ok := x.Values[0].(*ast.CallExpr); ok && len(c.Args) == 1 {
+					if s, ok := c.Fun.(*ast.SelectorExpr); ok && s.Sel.Name == "MustCompile" {
+						if bl, ok := c.Args[0].(*ast.BasicLit); ok {
+							if v, err := strconv.Unquote(bl.Value); err == nil {
+								vars[x.Names[0].Name] = v
+							}
+						}
+					}
+				}
+			}
+		case *ast.CallExpr:
+			if s, ok := x.Fun.(*ast.SelectorExpr); ok && s.Sel.Name == "ReplaceAll" && len(x.Args) == 2 {
+				if id, ok := s.X.(*ast.Ident); ok {
+					if lit, ok := vars[id.Name]; ok {
+						out.lit = lit
+						if c, ok := x.Args[1].(*ast.CallExpr); ok && len(c.Args) == 1 {
+							if bl, ok := c.Args[0].(*ast.BasicLit); ok {
+								out.tmpl, _ = strconv.Unquote(bl.Value)
+							}
+						}
+					}
+				}
+			}
+		}
+		return true
+	})
+	if out.lit == "" {
+		return nil, fmt.Errorf("no ReplaceAll of a package-level regexp in output.go")
+	}
+	out.re, err = regexp.Compile(out.lit)
+	return out, err
+}
+
+// ------------------------------------------------------------------ reading protojson's lines
+func gl(s string) string { return "(B " + common.GString(s) + ")" }
+
+// one line of multi-line protojson output as a Gallina `line`
+func classifyLine(l string) (string, bool) {
+	i := 0
+	for i < len(l) && l[i] == ' ' {
+		i++
+	}
+	rest := l[i:]
+	if rest == "" {
+		return "", false
+	}
+	if rest[0] != '"' {
+		return fmt.Sprintf("LOther %d (Ch %d) %s", i, rest[0], gl(rest[1:])), true
+	}
+	// closing quote
+	j := 1
+	for j < len(rest) && rest[j] != '"' {
+		if rest[j] == '\\' {
+			j++
+		}
+		j++
+	}
+	if j >= len(rest) {
+		return "", false
+	}
+	var s string
+	if err := json.Unmarshal([]byte(rest[:j+1]), &s); err != nil {
+		return "", false
+	}
+	after := rest[j+1:]
+	if strings.HasPrefix(after, ": ") {
+		v := after[2:]
+		salt := false
+		if strings.HasPrefix(v, " ") {
+			salt = true
+			v = v[1:]
+		}
+		return fmt.Sprintf("LKey %d %s %s %s", i, gl(s), common.GBool(salt), gl(v)), true
+	}
+	return fmt.Sprintf("LStr %d %s %s", i, gl(s), gl(after)), true
+}
+
+// ------------------------------------------------------------------ small messages with hostile strings
+func genAttribute(r *common.Rng, depth int) *sysl.Attribute {
+	switch k := r.Intn(6); {
+	case k < 3:
+		return &sysl.Attribute{Attribute: &sysl.Attribute_S{S: hostile(r, 5)}}
+	case k < 4:
+		return &sysl.Attribute{Attribute: &sysl.Attribute_I{I: int64(r.Intn(1000)) - 500}}
+	case k < 5 && depth > 0:
+		a := &sysl.Attribute_Array{}
+		n := r.Intn(4)
+		for i := 0; i < n; i++ {
+			a.Elt = append(a.Elt, genAttribute(r, depth-1))
+		}
+		return &sysl.Attribute{Attribute: &sysl.Attribute_A{A: a}}
+	default:
+		return &sysl.Attribute{Attribute: &sysl.Attribute_N{N: float64(r.Intn(100)) / 4}}
+	}
+}
+
+func genMessage(r *common.Rng) proto.Message {
+	app := &sysl.Application{Name: &sysl.AppName{}}
+	n := 1 + r.Intn(3)
+	for i := 0; i < n; i++ {
+		app.Name.Part = append(app.Name.Part, hostile(r, 4))
+	}
+	na := r.Intn(4)
+	if na > 0 {
+		app.Attrs = map[string]*sysl.Attribute{}
+	}
+	for i := 0; i < na; i++ {
+		app.Attrs[hostile(r, 4)] = genAttribute(r, 2)
+	}
+	if r.Chance(1, 3) {
+		app.LongName = hostile(r, 6)
+	}
+	if r.Chance(1, 3) {
+		app.Endpoints = map[string]*sysl.Endpoint{hostile(r, 4): {Name: hostile(r, 3), Docstring: hostile(r, 5), IsPubsub: r.Bool()}}
+	}
+	if r.Chance(1, 4) {
+		return app
+	}
+	return &sysl.Module{Apps: map[string]*sysl.Application{hostile(r, 5): app}}
+}
+
+// ------------------------------------------------------------------ dispatch probes
+type probes struct{ bin, js, txt []byte }
+
+func mkProbes() probes {
+	m := &sysl.Module{Apps: map[string]*sysl.Application{"P": {Name: &sysl.AppName{Part: []string{"P"}}, LongName: "probe"}}}
+	var p probes
+	p.bin, _ = encode(m, encodings[0])
+	p.js, _ = encode(m, encodings[1])
+	p.txt, _ = encode(m, encodings[3])
+	return p
+}
+
+func decoderName(okBin, okJS, okTxt, unknown bool) string {
+	switch {
+	case unknown:
+		return "DecUnknown"
+	case okBin && !okJS && !okTxt:
+		return "DecBinary"
+	case okJS && !okBin && !okTxt:
+		return "DecJson"
+	case okTxt && !okBin && !okJS:
+		return "DecText"
+	}
+	return "DecOther"
+}
+
+func isProbe(m *sysl.Module) bool {
+	return m != nil && m.Apps["P"] != nil && m.Apps["P"].LongName == "probe"
+}
+
+func observeDispatch(p probes, path string) (string, string) {
+	var ok [3]bool
+	unknown := 0
+	for i, c := range [][]byte{p.bin, p.js, p.txt} {
+		m, err := pbutil.FromPBStringContents(path, string(c))
+		if errors.Is(err, pbutil.ErrUnknownExtension) {
+			unknown++
+			continue
+		}
+		ok[i] = err == nil && isProbe(m)
+	}
+	d := decoderName(ok[0], ok[1], ok[2], unknown == 3)
+	if unknown != 0 && unknown != 3 {
+		d = "DecOther"
+	}
+	var okf [3]bool
+	for i, c := range [][]byte{p.bin, p.js, p.txt} {
+		m, err := decodeFile(path, c)
+		okf[i] = err == nil && isProbe(m)
+	}
+	return d, decoderName(okf[0], okf[1], okf[2], false)
+}
+
+// ------------------------------------------------------------------ CPost projection
+type interner struct {
+	set map[string]bool
+	id  map[string]int
+}
+
+func newInterner() *interner { return &interner{set: map[string]bool{}} }
+func (in *interner) add(ns, s string) { in.set[ns+"\x00"+s] = true }
+func (in *interner) freeze() {
+	var ks []string
+	for k := range in.set {
+		ks = append(ks, k)
+	}
+	sort.Strings(ks)
+	in.id = map[string]int{}
+	for i, k := range ks {
+		in.id[k] = i + 2
+	}
+}
+func (in *interner) get(ns, s string) string { return strconv.Itoa(in.id[ns+"\x00"+s]) }
+
+func detBytes(m proto.Message) string {
+	b, _ := proto.MarshalOptions{Deterministic: true}.Marshal(m)
+	return string(b)
+}
+
+type projector struct {
+	in    *interner
+	print bool
+}
+
+func (p *projector) name(ns, s string) string {
+	if !p.print {
+		p.in.add(ns, s)
+		return ""
+	}
+	return p.in.get(ns, s)
+}
+
+func (p *projector) attrs(m map[string]*sysl.Attribute) string {
+	var ks []string
+	for k := range m {
+		ks = append(ks, k)
+	}
+	sort.Strings(ks)
+	var it []string
+	for _, k := range ks {
+		a := m[k]
+		var v string
+		if arr, ok := a.GetAttribute().(*sysl.Attribute_A); ok && arr.A != nil {
+			meta := proto.Clone(a).(*sysl.Attribute)
+			meta.Attribute = &sysl.Attribute_A{A: &sysl.Attribute_Array{}}
+			var es []string
+			for _, e := range arr.A.Elt {
+				es = append(es, p.name("elt", detBytes(e)))
+			}
+			v = "AArr " + p.name("meta", detBytes(meta)) + " [" + strings.Join(es, ";") + "]"
+		} else {
+			v = "AVal " + p.name("val", detBytes(a))
+		}
+		it = append(it, "("+p.name("n", k)+", "+v+")")
+	}
+	return "[" + strings.Join(it, ";") + "]"
+}
+
+func (p *projector) stmts(ss []*sysl.Statement) string {
+	var it []string
+	for _, s := range ss {
+		it = append(it, p.stmt(s))
+	}
+	return "[" + strings.Join(it, ";") + "]"
+}
+
+func (p *projector) stmt(s *sysl.Statement) string {
+	switch x := s.GetStmt().(type) {
+	case *sysl.Statement_Call:
+		return "SCall " + p.name("t", strings.Join(x.Call.GetTarget().GetPart(), "\x01")) + " " + p.name("n", x.Call.GetEndpoint()) + " " + p.attrs(s.Attrs)
+	case *sysl.Statement_Action:
+		return "SAction " + p.name("n", x.Action.GetAction()) + " " + p.attrs(s.Attrs)
+	case *sysl.Statement_Ret:
+		return "SRet"
+	case *sysl.Statement_Cond:
+		return "SBlock " + p.stmts(x.Cond.GetStmt())
+	case *sysl.Statement_Loop:
+		return "SBlock " + p.stmts(x.Loop.GetStmt())
+	case *sysl.Statement_LoopN:
+		return "SBlock " + p.stmts(x.LoopN.GetStmt())
+	case *sysl.Statement_Foreach:
+		return "SBlock " + p.stmts(x.Foreach.GetStmt())
+	case *sysl.Statement_Group:
+		return "SBlock " + p.stmts(x.Group.GetStmt())
+	case *sysl.Statement_Alt:
+		var ch []string
+		for _, c := range x.Alt.GetChoice() {
+			ch = append(ch, p.stmts(c.GetStmt()))
+		}
+		return "SAlt [" + strings.Join(ch, ";") + "]"
+	}
+	return "SBad"
+}
+
+func (p *projector) module(m *sysl.Module) string {
+	var ks []string
+	for k := range m.GetApps() {
+		ks = append(ks, k)
+	}
+	sort.Strings(ks)
+	var apps []string
+	for _, k := range ks {
+		a := m.Apps[k]
+		var mix []string
+		for _, s := range a.Mixin2 {
+			mix = append(mix, p.name("n", syslutil.GetAppName(s.Name)))
+		}
+		kv := func(ns string, keys []string, val func(string) string) string {
+			sort.Strings(keys)
+			var it []string
+			for _, n := range keys {
+				it = append(it, "("+p.name("n", n)+", "+p.name(ns, val(n))+")")
+			}
+			return "[" + strings.Join(it, ";") + "]"
+		}
+		var tn, vn, en []string
+		for n := range a.Types {
+			tn = append(tn, n)
+		}
+		for n := range a.Views {
+			vn = append(vn, n)
+		}
+		for n := range a.Endpoints {
+			en = append(en, n)
+		}
+		sort.Strings(en)
+		var eps []string
+		for _, n := range en {
+			e := a.Endpoints[n]
+			eps = append(eps, "("+p.name("n", n)+", E "+p.attrs(e.Attrs)+" "+p.stmts(e.Stmt)+")")
+		}
+		apps = append(apps, "("+p.name("n", k)+", A ["+strings.Join(mix, ";")+"] "+
+			kv("ty", tn, func(n string) string { return detBytes(a.Types[n]) })+" "+
+			kv("vw", vn, func(n string) string { return detBytes(a.Views[n]) })+" ["+strings.Join(eps, ";")+"])")
+	}
+	return "[" + strings.Join(apps, ";") + "]"
+}
+
+// the Gallina case for: module `in` imported through x.pb gave `out` (nil: the compile panicked)
+func postCase(in, out *sysl.Module) string {
+	it := newInterner()
+	p := &projector{in: it}
+	it.add("n", collectorName)
+	p.module(in)
+	if out != nil {
+		p.module(out)
+	}
+	it.freeze()
+	p.print = true
+	o := "None"
+	if out != nil {
+		o = "(Some " + p.module(out) + ")"
+	}
+	return "CPost " + it.get("n", collectorName) + " " + p.module(in) + " " + o
+}
+
+// ------------------------------------------------------------------ modules built directly (route 2)
+func genAbstract(r *common.Rng) *sysl.Module {
+	m := &sysl.Module{Apps: map[string]*sysl.Application{}}
+	names := []string{"A", "B", "C", "D"}
+	na := 1 + r.Intn(4)
+	epn := []string{"E0", "E1", "E2"}
+	keys := []string{"patterns", "k1", "k2"}
+	mkAttr := func() *sysl.Attribute {
+		if r.Chance(2, 3) {
+			a := &sysl.Attribute_Array{}
+			n := r.Intn(3)
+			for i := 0; i < n; i++ {
+				a.Elt = append(a.Elt, &sysl.Attribute{Attribute: &sysl.Attribute_S{S: []string{"p", "q", "r"}[r.Intn(3)]}})
+			}
+			return &sysl.Attribute{Attribute: &sysl.Attribute_A{A: a}}
+		}
+		return &sysl.Attribute{Attribute: &sysl.Attribute_S{S: []string{"x", "y"}[r.Intn(2)]}}
+	}
+	mkAttrs := func() map[string]*sysl.Attribute {
+		n := r.Intn(3)
+		if n == 0 {
+			return nil
+		}
+		o := map[string]*sysl.Attribute{}
+		for i := 0; i < n; i++ {
+			o[keys[r.Intn(len(keys))]] = mkAttr()
+		}
+		return o
+	}
+	call := func() *sysl.Statement {
+		return &sysl.Statement{Stmt: &sysl.Statement_Call{Call: &sysl.Call{Target: &sysl.AppName{Part: []string{names[r.Intn(na)]}}, Endpoint: epn[r.Intn(len(epn))]}}, Attrs: mkAttrs()}
+	}
+	var stmts func(d int) []*sysl.Statement
+	stmts = func(d int) []*sysl.Statement {
+		var o []*sysl.Statement
+		n := r.Intn(4)
+		for i := 0; i < n; i++ {
+			switch k := r.Intn(8); {
+			case k < 4:
+				o = append(o, call())
+			case k < 5:
+				o = append(o, &sysl.Statement{Stmt: &sysl.Statement_Action{Action: &sysl.Action{Action: "act"}}, Attrs: mkAttrs()})
+			case k < 6:
+				o = append(o, &sysl.Statement{Stmt: &sysl.Statement_Ret{Ret: &sysl.Return{Payload: "ok"}}})
+			case k < 7 && d > 0:
+				o = append(o, &sysl.Statement{Stmt: &sysl.Statement_Loop{Loop: &sysl.Loop{Mode: sysl.Loop_WHILE, Criterion: "c", Stmt: stmts(d - 1)}}})
+			case d > 0:
+				o = append(o, &sysl.Statement{Stmt: &sysl.Statement_Alt{Alt: &sysl.Alt{Choice: []*sysl.Alt_Choice{{Cond: "a", Stmt: stmts(d - 1)}, {Cond: "b", Stmt: stmts(d - 1)}}}}})
+			default:
+				o = append(o, call())
+			}
+		}
+		return o
+	}
+	for i := 0; i < na; i++ {
+		a := &sysl.Application{Name: &sysl.AppName{Part: []string{names[i]}}}
+		if r.Chance(1, 2) {
+			a.Attrs = map[string]*sysl.Attribute{"patterns": {Attribute: &sysl.Attribute_A{A: &sysl.Attribute_Array{Elt: []*sysl.Attribute{{Attribute: &sysl.Attribute_S{S: "abstract"}}}}}}}
+		}
+		for j := 0; j < 4; j++ {
+			if j != i && r.Chance(1, 3) {
+				a.Mixin2 = append(a.Mixin2, &sysl.Application{Name: &sysl.AppName{Part: []string{names[j]}}})
+			}
+		}
+		nt := r.Intn(3)
+		for j := 0; j < nt; j++ {
+			if a.Types == nil {
+				a.Types = map[string]*sysl.Type{}
+			}
+			a.Types[fmt.Sprintf("T%d", r.Intn(4))] = &sysl.Type{Type: &sysl.Type_Primitive_{Primitive: sysl.Type_Primitive(1 + i)}, Docstring: names[i]}
+		}
+		ne := r.Intn(4)
+		for j := 0; j < ne; j++ {
+			if a.Endpoints == nil {
+				a.Endpoints = map[string]*sysl.Endpoint{}
+			}
+			n := epn[r.Intn(len(epn))]
+			a.Endpoints[n] = &sysl.Endpoint{Name: n, Attrs: mkAttrs(), Stmt: stmts(2)}
+		}
+		if r.Chance(2, 3) {
+			if a.Endpoints == nil {
+				a.Endpoints = map[string]*sysl.Endpoint{}
+			}
+			c := &sysl.Endpoint{Name: collectorName}
+			n := 1 + r.Intn(4)
+			for j := 0; j < n; j++ {
+				at := mkAttrs()
+				if at == nil {
+					at = map[string]*sysl.Attribute{"patterns": mkAttr()}
+				}
+				if r.Bool() {
+					c.Stmt = append(c.Stmt, &sysl.Statement{Stmt: &sysl.Statement_Action{Action: &sysl.Action{Action: epn[r.Intn(len(epn))]}}, Attrs: at})
+				} else {
+					s := call()
+					s.Attrs = at
+					c.Stmt = append(c.Stmt, s)
+				}
+			}
+			a.Endpoints[collectorName] = c
+		}
+		m.Apps[names[i]] = a
+	}
+	return m
+}
+
+// ------------------------------------------------------------------ main
+const openapiJSON = `{"openapi": "3.0.0", "info": {"title": "Pet", "version": "1"}, "paths": {"/pets": {"get": {"responses": {"200": {"description": "ok"}}}}}}`
+
+type runner struct {
+	c      *common.Ctx
+	clean  *common.Cases
+	disp   *common.Cases
+	post   *common.Cases
+	re     *srcRegex
+	nJSONCoq int
+	rot      int
+	allImports bool // re-import through every encoding (thorough, regression, replay); otherwise .pb and one other in rotation
+}
+
+func (rn *runner) failf(key string, rp replay, format string, a ...interface{}) {
+	rn.c.Fail(key, fmt.Sprintf(format, a...), rp)
+}
+
+// all oracle clauses on one module; base describes how to rebuild it
+func (rn *runner) judgeModule(m *sysl.Module, base replay, label string, jsonToCoq bool, reimport bool) {
+	c := rn.c
+	for ei, e := range encodings {
+		rp := base
+		rp.Enc, rp.Compact, rp.Via = e.name, e.compact, "decode"
+		b, err := encode(m, e)
+		if err != nil {
+			rn.failf("encode-error:"+e.name, rp, "%s: %s encoder failed: %v", label, e, err)
+			continue
+		}
+		if e.name == "json" && !json.Valid(b) {
+			rn.failf("json:malformed", rp, "%s: %s output is not well-formed JSON", label, e)
+		}
+		m2, err := decodeFile("x"+e.suffix, b)
+		if err != nil {
+			rn.failf("roundtrip:"+e.name+":decode-error", rp, "%s: %s output does not decode: %v", label, e, err)
+			continue
+		}
+		if !proto.Equal(m, m2) {
+			var ds []diffItem
+			diffMsg(nil, m.ProtoReflect(), m2.ProtoReflect(), &ds)
+			what := "?"
+			if len(ds) > 0 {
+				what = strings.Join(ds[0].path, ".") + " (" + ds[0].kind + ")"
+			}
+			rn.failf("roundtrip:"+e.name+":differs", rp, "%s: decoding the %s output gives a different model: %s", label, e, what)
+		}
+		c.Hist("roundtrip:" + e.String())
+		rn.rot++
+		if reimport && !(e.name == "pb" && e.compact) && (e.name == "pb" || rn.allImports || (rn.rot/6)%4 == ei-1) {
+			rp.Via = "import"
+			re, err, panicked := compile(map[string]string{"root.sysl": "import x" + e.suffix + "\n", "x" + e.suffix: string(b)}, "root.sysl")
+			switch {
+			case panicked:
+				rn.failf("reimport:panic", rp, "%s: compiling `import x%s` panics: %v", label, e.suffix, err)
+			case err != nil:
+				rn.failf("reimport:error", rp, "%s: compiling `import x%s` fails: %v", label, e.suffix, err)
+			default:
+				for k, what := range classifyReimport(m, re) {
+					rn.failf(k, rp, "%s: `import x%s` (%s) does not reproduce the applications: %s", label, e.suffix, e, what)
+				}
+				c.Hist("reimport:" + e.String())
+			}
+			if e.name == "pb" && rn.post != nil {
+				if panicked {
+					re = nil
+				}
+				if err == nil || panicked {
+					rn.post.Add(postCase(m, re), rp)
+				}
+			}
+		}
+	}
+	if jsonToCoq {
+		rn.jsonCase(m, base)
+	}
+}
+
+// CJson / CCompact for one message
+func (rn *runner) jsonCase(m proto.Message, base replay) {
+	opts := protojson.MarshalOptions{Multiline: true, Indent: " "}
+	raw, err := opts.Marshal(m)
+	if err != nil {
+		return
+	}
+	var w bytes.Buffer
+	if err := pbutil.FJSONPBWithOpt(&w, m, pbutil.OutputOptions{}); err != nil {
+		return
+	}
+	rp := base
+	rp.Enc = "json"
+	var ls []string
+	ok := true
+	for _, l := range strings.Split(string(raw), "\n") {
+		g, k := classifyLine(l)
+		if !k {
+			ok = false
+			break
+		}
+		ls = append(ls, g)
+	}
+	if !ok {
+		ls = []string{"LOther 0 (Ch 63) (B \"unreadable line\")"} // forces a mismatch: the harness could not read the output
+	}
+	rn.clean.Add(fmt.Sprintf("CJson [%s]\n %s\n %s", strings.Join(ls, ";\n "), common.GString(string(raw)), common.GString(w.String())), rp)
+	rn.nJSONCoq++
+	rawc, err := protojson.MarshalOptions{}.Marshal(m)
+	if err == nil {
+		var wc bytes.Buffer
+		if pbutil.FJSONPBWithOpt(&wc, m, pbutil.OutputOptions{Compact: true}) == nil {
+			rp.Compact = true
+			rn.clean.Add(fmt.Sprintf("CCompact %s %s", common.GString(string(rawc)), common.GString(wc.String())), rp)
+		}
+	}
+}
+
+func (rn *runner) regexCase(doc string) {
+	out := rn.re.re.ReplaceAll([]byte(doc), []byte(rn.re.tmpl))
+	rn.clean.Add(fmt.Sprintf("CClean %s %s", common.GString(doc), common.GString(string(out))), replay{Kind: "regex", Doc: doc})
+	rn.c.Count("regex|"+doc, strings.Contains(doc, "\"") && strings.Contains(doc, ":"))
+	if string(out) != doc {
+		rn.c.Hist("regex:changed")
+	} else {
+		rn.c.Hist("regex:unchanged")
+	}
+}
+
+func genDoc(r *common.Rng) string {
+	var b strings.Builder
+	n := 1 + r.Intn(5)
+	for i := 0; i < n; i++ {
+		if i > 0 {
+			b.WriteString("\n")
+		}
+		switch r.Intn(4) {
+		case 0: // protojson-like key line
+			b.WriteString(strings.Repeat(" ", r.Intn(4)))
+			k, _ := json.Marshal(hostile(r, 3))
+			b.Write(k)
+			b.WriteString(":" + strings.Repeat(" ", r.Intn(4)))
+			b.WriteString(hostile(r, 3))
+		case 1: // key-like with raw pieces (unterminated, odd escapes)
+			b.WriteString([]string{"", " ", "\t", " \r", "\f "}[r.Intn(5)])
+			b.WriteString(`"` + hostile(r, 4) + `": ` + []string{"", " ", "  "}[r.Intn(3)] + hostile(r, 2))
+		case 2:
+			b.WriteString(hostile(r, 6))
+		default:
+			b.WriteString(strings.Repeat(" ", r.Intn(3)))
+		}
+	}
+	return b.String()
+}
+
+func (rn *runner) dispatchCase(p probes, path string) {
+	d, fd := observeDispatch(p, path)
+	rn.disp.Add(fmt.Sprintf("CDispatch %s %s %s", common.GString(path), d, fd), replay{Kind: "dispatch", Path: path})
+	rn.c.Count("dispatch|"+path, true)
+	rn.c.Hist("dispatch:" + d)
+}
+
+// a .json file that is not a compiled model must stay with the OpenAPI importer
+func (rn *runner) foreignJSON(name string) {
+	rp := replay{Kind: "foreign-json", Path: name}
+	m, err, panicked := compile(map[string]string{"root.sysl": "import " + name + " as Foreign :: Api ~openapi3\n", name: openapiJSON}, "root.sysl")
+	rn.c.Count("foreign|"+name, true)
+	if panicked || err != nil {
+		rn.failf("dispatch:foreign-json-not-imported", rp, "`import %s` of an OpenAPI 3 document fails: %v", name, err)
+		return
+	}
+	if m.Apps["Foreign :: Api"] == nil || len(m.Apps["Foreign :: Api"].Endpoints) == 0 {
+		rn.failf("dispatch:foreign-json-not-imported", rp, "`import %s` of an OpenAPI 3 document does not yield the application with its endpoint", name)
+	}
+	rn.c.Hist("foreign-json:ok")
 }
 
 func main() {
-	src := "A%22%3A%20%20B:\n    !type T:\n        x <: string\n"
-	m, err := compile(map[string]string{"a.sysl": src}, "a.sysl")
-	fmt.Println(err)
-	var b bytes.Buffer
-	pbutil.FJSONPBWithOpt(&b, m, pbutil.OutputOptions{})
-	fmt.Println(b.String()[:300])
-	m2, err := pbutil.FromPBByteContents("x.pb.json", b.Bytes())
-	fmt.Println(err, proto.Equal(m, m2))
-	for k := range m2.Apps {
-		fmt.Printf("%q\n", k)
+	logrus.SetLevel(logrus.PanicLevel)
+	debug.SetGCPercent(400)
+	if pf := os.Getenv("C09_PROF"); pf != "" {
+		f, _ := os.Create(pf)
+		pprof.StartCPUProfile(f)
+		defer pprof.StopCPUProfile()
 	}
-	src3 := `A:
-    -|> B
-    !type TA:
-        x <: int
-B [~abstract]:
-    -|> C
-    !type TB:
-        x <: int
-C [~abstract]:
-    !type TC:
-        x <: int
-`
-	m, err = compile(map[string]string{"a.sysl": src3}, "a.sysl")
-	fmt.Println(err)
-	var pb3 bytes.Buffer
-	pbutil.GeneratePBBinaryMessage(&pb3, m)
-	m4, err := compile(map[string]string{"b.sysl": "import x.pb\n", "x.pb": pb3.String()}, "b.sysl")
-	fmt.Println(err, proto.Equal(m, m4))
-	for an, a := range m.Apps {
-		fmt.Println(an, proto.Equal(a, m4.Apps[an]), len(a.Types), len(m4.Apps[an].Types))
+	c := common.Setup("C09")
+	defer c.Finish()
+	repo := os.Getenv("VERIF_REPO")
+	if repo == "" {
+		repo = "/repo"
 	}
-	src2 := `A [~x]:
-    E1 [~e]:
-        B <- F
-        ...
-    E2:
-        ...
-    .. * <- *:
-        E2 [~q, k="v"]
-        B <- F [~t]
-B:
-    F:
-        ...
-`
-	m, err = compile(map[string]string{"a.sysl": src2}, "a.sysl")
-	fmt.Println(err)
-	var pb bytes.Buffer
-	pbutil.GeneratePBBinaryMessage(&pb, m)
-	m3, err := compile(map[string]string{"b.sysl": "import x.pb\n", "x.pb": pb.String()}, "b.sysl")
-	fmt.Println(err, proto.Equal(m, m3))
-	for an, a := range m.Apps {
-		fmt.Println(an, proto.Equal(a, m3.Apps[an]))
+	c.Res.Rule = "cases: (a) modules - repository corpus files, generated Sysl text (apps/types/endpoints/collectors/mixins, attribute strings and URL-escaped names over an alphabet of quotes, backslashes, colons, spaces, newlines, control and non-ASCII bytes, key-like text) compiled by the real parser, and modules built directly - each x 6 encodings decoded back x 5 re-imports; (b) messages with hostile keys/strings through the real JSON writer, lines read back and compared in Coq; (c) byte documents through the source's expression with Go's regexp; (d) file names through the decoder dispatch; (e) an OpenAPI .json import. distinct = distinct module bytes / document / name; non-trivial = module has a string with a quote or backslash, or a collector, or a mixin; document has a quote and a colon"
+	re, err := readSourceRegex(repo)
+	if err != nil {
+		fmt.Fprintln(os.Stderr, "cannot read the clean-up expression from the source:", err)
+		os.Exit(3)
 	}
-	fmt.Println(m.Apps["A"].Endpoints["E2"].Attrs)
-	fmt.Println(m3.Apps["A"].Endpoints["E2"].Attrs)
-	fmt.Println(m.Apps["A"].Endpoints["E1"].Stmt[0].Attrs)
-	fmt.Println(m3.Apps["A"].Endpoints["E1"].Stmt[0].Attrs)
+	c.Res.Extra["regex_literal"] = re.lit
+	rn := &runner{c: c, re: re}
+
+	if c.Replay != "" {
+		var rp replay
+		if err := common.LoadReplay(c.Replay, &rp); err != nil {
+			fmt.Fprintln(os.Stderr, err)
+			os.Exit(3)
+		}
+		rn.replay(rp, repo)
+		fmt.Printf("replay %s: failures=%d\n", rp.Kind, len(c.Res.Failures))
+		for _, f := range c.Res.Failures {
+			fmt.Println("  ", f.Key, f.What)
+		}
+		return
+	}
+
+	hdrClean := `From Coq Require Import String Ascii List Bool NArith. Import ListNotations.
+Require Import Verif.Base.Harness Verif.Codec.JsonClean Verif.Codec.Dispatch Verif.Codec.PostProcess Verif.Codec.Run Verif.Gen.JsonRegex Verif.Gen.PbDispatch.
+Local Open Scope string_scope.
+Definition src := {| src_regex := regex; src_cases := cases; src_after := after_switch; src_fallback := frompb_fallback |}.`
+	hdrPost := `From Coq Require Import String Ascii List Bool NArith PArith. Import ListNotations.
+Require Import Verif.Base.Harness Verif.Codec.JsonClean Verif.Codec.Dispatch Verif.Codec.PostProcess Verif.Codec.Run Verif.Gen.JsonRegex Verif.Gen.PbDispatch.
+Local Open Scope positive_scope.
+Definition src := {| src_regex := regex; src_cases := cases; src_after := after_switch; src_fallback := frompb_fallback |}.
+Definition A := @Build_app attr. Definition E := @Build_endpoint attr.`
+	footer := `Definition M := Eval vm_compute in mismatches (c09_ok src) cases. Print M.`
+	rn.clean = c.NewCases("C09clean", hdrClean, "c09_case", footer, 120)
+	rn.disp = c.NewCases("C09disp", hdrClean, "c09_case", footer, 2000)
+	rn.post = c.NewCases("C09post", hdrPost, "c09_case", footer, 150)
+
+	scale := 1
+	if c.Thorough() {
+		scale = 8
+	}
+	if c.Search {
+		scale *= 3
+	}
+
+	t0 := time.Now()
+	lap := func(what string) {
+		c.Res.Extra["seconds:"+what] = float64(int(time.Since(t0).Seconds()*10)) / 10
+		t0 = time.Now()
+	}
+	// 0. regression corpus: the two probed defects and the shapes of Appendix B
+	rn.allImports = true
+	for _, src := range regressionSysl {
+		rn.syslCase(src, "regression")
+	}
+	rn.allImports = c.Thorough()
+	for _, d := range regressionDocs {
+		rn.regexCase(d)
+	}
+	for i, n := range []string{"api.json", "dir/pet.json", "x.pb.yaml.json"} {
+		if i == 0 || c.Thorough() || c.Search {
+			rn.foreignJSON(n)
+		}
+	}
+	lap("regression")
+
+	// 1. dispatch: bounded-exhaustive stems x suffixes
+	pr := mkProbes()
+	stems := []string{"", "a", "x.pb", ".pb", "m.textpb", "dir/x", "x.json", "a.b", "x.pb.json", "pb", "x.", "é", "x.PB"}
+	sufs := []string{".pb", ".pb.json", ".textpb", ".json", ".yaml", ".yml", ".sysl", ".proto", ".PB", ".pb.jsonx", ".pbjson", "pb", ".pb.", ".textpb.json", ".pb.txt", "", ".textp", "textpb", ".Pb.json", ".jso"}
+	for _, s := range stems {
+		for _, x := range sufs {
+			rn.dispatchCase(pr, s+x)
+		}
+	}
+
+	lap("dispatch")
+	// 2. generated Sysl text
+	nGen := 40 * scale
+	for i := 0; i < nGen; i++ {
+		rn.syslCase(genSysl(c.Rng, genOpts{hostileNames: i%2 == 0}), "generated")
+	}
+	lap("generated")
+	// 3. modules built directly
+	nAbs := 60 * scale
+	for i := 0; i < nAbs; i++ {
+		m := genAbstract(c.Rng)
+		b := detBytes(m)
+		c.Count("abstract|"+b, true)
+		c.Hist("module:abstract")
+		rn.abstractCase(m)
+	}
+	lap("abstract")
+	// 4. repository corpus
+	files := corpusFiles(repo)
+	c.Res.Extra["corpus_files"] = len(files)
+	nCorpus := 15
+	if c.Thorough() {
+		nCorpus = len(files)
+	}
+	perm := make([]int, len(files))
+	for i := range perm {
+		perm[i] = i
+	}
+	for i := len(perm) - 1; i > 0; i-- {
+		j := c.Rng.Intn(i + 1)
+		perm[i], perm[j] = perm[j], perm[i]
+	}
+	done := 0
+	for _, pi := range perm {
+		if done >= nCorpus {
+			break
+		}
+		m, err := compileCorpus(repo, files[pi])
+		if err != nil || m == nil {
+			c.Hist("corpus:does-not-compile-alone")
+			continue
+		}
+		done++
+		c.Count("corpus|"+files[pi], nontrivialModule(m))
+		c.Hist("module:corpus")
+		rn.judgeModule(m, replay{Kind: "corpus", Path: files[pi]}, "corpus file "+files[pi], false, true)
+		if done%6 == 0 {
+			s := proto.Clone(m).(*sysl.Module)
+			stripCtx(s.ProtoReflect())
+			if proto.Size(s) < 6000 {
+				rn.jsonCase(s, replay{Kind: "corpus", Path: files[pi], Note: "source contexts dropped"})
+			}
+		}
+	}
+	lap("corpus")
+	// 5. small messages through the JSON writer
+	nMsg := 300 * scale
+	for i := 0; i < nMsg; i++ {
+		m := genMessage(c.Rng)
+		c.Count("msg|"+detBytes(m), true)
+		c.Hist("message")
+		rp := replay{Kind: "msg", Doc: protojson.Format(m)}
+		rn.jsonCase(m, rp)
+		if mod, ok := m.(*sysl.Module); ok {
+			rn.judgeModule(mod, rp, "message with hostile strings", false, false)
+		}
+	}
+	lap("messages")
+	// 6. documents through the expression
+	nDoc := 1000 * scale
+	for i := 0; i < nDoc; i++ {
+		rn.regexCase(genDoc(c.Rng))
+	}
+	lap("documents")
+	rn.clean.Close()
+	rn.disp.Close()
+	rn.post.Close()
+	c.Res.Extra["json_documents_compared_in_coq"] = rn.nJSONCoq
+}
+
+// a module built directly is first compiled (import of its .pb: post-processing runs for the first time, compared
+// with the model), and the compiled model is then judged like any other
+func (rn *runner) abstractCase(m0 *sysl.Module) {
+	rp := replay{Kind: "abstract", Doc: protojson.Format(m0)}
+	b, err := encode(m0, encodings[0])
+	if err != nil {
+		return
+	}
+	m1, err, panicked := compile(map[string]string{"root.sysl": "import x.pb\n", "x.pb": string(b)}, "root.sysl")
+	if panicked {
+		rn.c.Hist("abstract:first-compile-panics")
+		if rn.post != nil {
+			rn.post.Add(postCase(m0, nil), rp)
+		}
+		return
+	}
+	if err != nil || m1 == nil {
+		rn.c.Hist("abstract:first-compile-error")
+		return
+	}
+	if rn.post != nil {
+		rn.post.Add(postCase(m0, m1), rp)
+	}
+	rn.judgeModule(m1, rp, "module built directly, compiled", false, true)
+}
+
+func nontrivialModule(m *sysl.Module) bool {
+	b := detBytes(m)
+	if strings.ContainsAny(b, "\"\\") {
+		return true
+	}
+	for _, a := range m.Apps {
+		if len(a.Mixin2) > 0 || a.Endpoints[collectorName] != nil {
+			return true
+		}
+	}
+	return false
+}
+
+func (rn *runner) syslCase(src, stream string) {
+	c := rn.c
+	files := map[string]string{"m.sysl": src}
+	m, err, panicked := compile(files, "m.sysl")
+	if panicked || err != nil || m == nil {
+		c.Hist("sysl:" + stream + ":does-not-compile")
+		if len(c.Res.Notes) < 5 {
+			c.Res.Notes = append(c.Res.Notes, fmt.Sprintf("generated text did not compile (%v): %q", err, src))
+		}
+		return
+	}
+	c.Count("sysl|"+src, nontrivialModule(m))
+	c.Hist("module:" + stream)
+	for _, a := range m.Apps {
+		if a.Endpoints[collectorName] != nil {
+			c.Hist("module-with-collector")
+			break
+		}
+	}
+	for k := range m.Apps {
+		if hasMixinChain(m, k) {
+			c.Hist("module-with-mixin-chain")
+			break
+		}
+	}
+	c.Sample(map[string]interface{}{"stream": stream, "sysl": src})
+	small := len(src) < 400
+	rn.judgeModule(m, replay{Kind: "sysl", Files: files, Root: "m.sysl"}, stream+" specification", false, true)
+	if small || stream == "regression" {
+		s := proto.Clone(m).(*sysl.Module)
+		stripCtx(s.ProtoReflect())
+		rn.jsonCase(s, replay{Kind: "sysl", Files: files, Root: "m.sysl", Note: "source contexts dropped"})
+	}
+}
+
+var regressionSysl = []string{
+	// the probed JSON defect: application name  A":  B
+	"A%22%3A%20%20B:\n    !type T:\n        x <: string\n",
+	// the same text in an attribute value, an array element and a type name part
+	"App [k=\"v\\\":  w\", arr=[\"a\\\":  b\", \"c\"]]:\n    @note = \"x\\\\\\\":  y\"\n    E:\n        ...\n",
+	// collector with array attributes (re-import appends them again)
+	"A [~x]:\n    E1 [~e]:\n        B <- F\n        ...\n    E2:\n        ...\n    .. * <- *:\n        E2 [~q, k=\"v\"]\n        B <- F [~t]\nB:\n    F:\n        ...\n",
+	// mixin chain
+	"A:\n    -|> B\n    !type TA:\n        x <: int\nB [~abstract]:\n    -|> C\n    !type TB:\n        x <: int\nC [~abstract]:\n    !type TC:\n        x <: int\n",
+	// newline, non-ASCII, control bytes in names and values
+	"N%0A%C3%A9%01x [k=\"line\\nbreak \\u00e9 \\t\"]:\n    E:\n        ...\n",
+}
+
+var regressionDocs = []string{
+	"{\n \"A\\\":  B\":  {}\n}", "{\n \"A\\\":  B\": {}\n}", " \"k\":  1", "\"k\":  \"v\":  2", "x \"k\":  1", "\n\n \"k\":  1\n", " \"a\\\\\":  1", " \"a\\\n\":  1",
+	"[\n \"a\\\":  b\"\n]", " \"k\": \":  x\"", "\t\"k\":  1\r\n \"j\":  2", " \"unterminated:  1\n \"k\":  2", " \"k\":   3", "\"\":  0",
+}
+
+func (rn *runner) replay(rp replay, repo string) {
+	switch rp.Kind {
+	case "sysl":
+		m, err, _ := compile(rp.Files, rp.Root)
+		if err != nil {
+			fmt.Println("does not compile:", err)
+			return
+		}
+		rn.post = nil
+		rn.clean = nil
+		rn.judgeModuleOnly(m, rp)
+	case "corpus":
+		m, err := compileCorpus(repo, rp.Path)
+		if err != nil {
+			fmt.Println("does not compile:", err)
+			return
+		}
+		rn.judgeModuleOnly(m, rp)
+	case "abstract":
+		m := &sysl.Module{}
+		if err := protojson.Unmarshal([]byte(rp.Doc), m); err != nil {
+			fmt.Println("replay message is not a module:", err)
+			return
+		}
+		rn.post, rn.clean, rn.allImports = nil, nil, true
+		rn.abstractCase(m)
+	case "msg":
+		m := &sysl.Module{}
+		if err := protojson.Unmarshal([]byte(rp.Doc), m); err != nil {
+			fmt.Println("replay message is not a module:", err)
+			return
+		}
+		rn.post, rn.clean = nil, nil
+		rn.judgeModule(m, rp, "replayed message", false, false)
+	case "regex":
+		out := rn.re.re.ReplaceAll([]byte(rp.Doc), []byte(rn.re.tmpl))
+		fmt.Printf("document %q\n cleaned %q\n", rp.Doc, out)
+	case "dispatch":
+		d, fd := observeDispatch(mkProbes(), rp.Path)
+		fmt.Printf("%q: FromPBStringContents -> %s, FromPB -> %s\n", rp.Path, d, fd)
+	case "foreign-json":
+		rn.foreignJSON(rp.Path)
+	}
+	rn.c.Count("replay", true)
+}
+
+func (rn *runner) judgeModuleOnly(m *sysl.Module, rp replay) {
+	rn.post, rn.clean, rn.allImports = nil, nil, true
+	base := rp
+	base.Enc, base.Via = "", ""
+	rn.judgeModule(m, base, "replayed module", false, true)
 }
